@@ -409,6 +409,40 @@ struct Failure {
     detail: String,
 }
 
+/// stored witness of known finding F9 (C15): the batch seqno of a Start marker is outside the checksum
+fn witness_f9() -> Option<String> {
+    use fjall::{Database, KeyspaceCreateOptions};
+    let scratch = Scratch::new("f9");
+    let dir = scratch.join("db");
+    let l1;
+    {
+        let db = Database::builder(&dir).worker_threads_unchecked(0).open().ok()?;
+        let a = db.keyspace("a", KeyspaceCreateOptions::default).ok()?;
+        a.insert("k", "v1").ok()?;
+        l1 = journal_content(&dir.join("0.jnl")).len();
+        a.insert("k", "v2").ok()?;
+        a.insert("j", "x").ok()?;
+    }
+    // zero the 8 seqno bytes of the second batch's Start marker (tag, item count u32, seqno u64)
+    let p = dir.join("0.jnl");
+    let mut data = std::fs::read(&p).ok()?;
+    for b in &mut data[l1 + 5..l1 + 13] { *b = 0; }
+    std::fs::write(&p, &data).ok()?;
+    let r = std::panic::catch_unwind(|| -> Option<(Option<Vec<u8>>, Option<Vec<u8>>)> {
+        let db = Database::builder(&dir).worker_threads_unchecked(0).open().ok()?;
+        let a = db.keyspace("a", KeyspaceCreateOptions::default).ok()?;
+        Some((a.get("k").ok()?.map(|x| x.to_vec()), a.get("j").ok()?.map(|x| x.to_vec())))
+    });
+    match r {
+        Ok(Some((k, j))) => {
+            // prefix states: {}, {k=v1}, {k=v2}, {k=v2, j=x}
+            let prefix = matches!((k.as_deref(), j.as_deref()), (None, None) | (Some(b"v1"), None) | (Some(b"v2"), None) | (Some(b"v2"), Some(b"x")));
+            if prefix { None } else { Some(format!("the seqno bytes of the second batch's Start marker were zeroed; reopening succeeds with k={:?} j={:?}, which is not the state of any prefix of [k=v1, k=v2, j=x]", k.map(|x| String::from_utf8_lossy(&x).to_string()), j.map(|x| String::from_utf8_lossy(&x).to_string()))) }
+        }
+        _ => None, // open failed: allowed
+    }
+}
+
 fn fnv(s: &str) -> u64 {
     let mut h = 0xcbf29ce484222325u64;
     for b in s.bytes() {
@@ -881,6 +915,8 @@ fn main() {
         }
     }
     st.model_requests = lean.requests;
+    let mut witness_hits: Vec<(&'static str, String)> = vec![];
+    if mode == "c15" { if let Some(d) = witness_f9() { witness_hits.push(("F9", d)); } }
 
     let mut res = J::obj();
     res.set("engine", J::s("journal"));
@@ -915,6 +951,14 @@ fn main() {
                     o.set("detail", J::s(f.detail.clone()));
                     o
                 })
+                .chain(witness_hits.iter().map(|(w, d)| {
+                    let mut o = J::obj();
+                    o.set("case_seed", J::s("0".to_string()));
+                    o.set("kind", J::s("impl-vs-oracle"));
+                    o.set("detail", J::s(d.clone()));
+                    o.set("witness_id", J::s(w.to_string()));
+                    o
+                }))
                 .collect(),
         ),
     );
